@@ -748,6 +748,23 @@ func c10(run *ev.Run, tier string) {
 			}
 		}
 	}
+	// apk: no key name and a maintainer that yields none - the signature cannot be named,
+	// which is a signing failure like any other
+	for _, maint := range []string{"", "not an address", "Name Only"} {
+		s := base()
+		s.Maintainer = maint
+		s.APK.Sig.KeyFile = testKey("rsa_unprotected.priv")
+		cfg, err := parseYAML(s.YAML(), nil)
+		if err != nil {
+			continue
+		}
+		info, err := infoFor(&cfg, "apk")
+		if err != nil {
+			continue
+		}
+		r := packageInfo("apk", info)
+		expectSigningFailure("apk-signature-cannot-be-named/maintainer="+ev.KeyPart(maint), r.Err, r.Panic, nil)
+	}
 	c10OddPassphrases(run, base, &verified)
 	// history: the key file is replaced by another key between two builds in
 	// the same process; the second package must be signed by the new key
